@@ -111,6 +111,10 @@ pub fn gen_sorted(rng: &mut Rng, quick: bool, case: u64) -> DirSpec {
     let keykind = rng.below(6);
     let indexed = rng.chance(1, 2);
     let fixed = *rng.pick(&[0usize, 0, 1, 2, 3, 31]);
+    // a value store holding more than a thousand distinct values, some of them handed over again late
+    // (keys under another inline prefix whose remainder repeats an earlier one)
+    let many_values = case % 20 == 13;
+    let (keykind, indexed, fixed) = if many_values { (0, case % 40 == 13, 2) } else { (keykind, indexed, fixed) };
     let mut common: Vec<(&'static str, PDef)> = vec![];
     let mut sort_keys: Vec<&'static str> = vec![];
     let mut columns: Vec<Vec<V>> = vec![];
@@ -118,7 +122,27 @@ pub fn gen_sorted(rng: &mut Rng, quick: bool, case: u64) -> DirSpec {
         0 | 1 | 2 => {
             common.push(("p0", PDef::Array { fixed, store: 0 }));
             sort_keys.push("p0");
-            columns.push(gen_array_keys(rng, n, fixed).into_iter().map(V::A).collect());
+            if many_values {
+                let nvals = 1040 + rng.below(120) as usize;
+                let mut keys: Vec<Vec<u8>> = (0..nvals).map(|i| format!("aa{:05}", i * 7 % 99991).into_bytes()).collect();
+                // the second occurrences of a remainder come last: by then the store holds > 1024 values
+                let mut late: Vec<Vec<u8>> = (0..(20 + rng.below(40) as usize)).map(|j| {
+                    let mut k = keys[(j * 37 + 5) % nvals].clone();
+                    k[0] = b'b';
+                    k[1] = if j % 3 == 0 { b'a' } else { b'b' };
+                    k
+                }).collect();
+                late.sort();
+                late.dedup();
+                for i in (1..keys.len()).rev() {
+                    let j = rng.below(i as u64 + 1) as usize;
+                    keys.swap(i, j);
+                }
+                keys.extend(late);
+                columns.push(keys.into_iter().map(V::A).collect());
+            } else {
+                columns.push(gen_array_keys(rng, n, fixed).into_iter().map(V::A).collect());
+            }
         }
         3 => {
             common.push(("p0", PDef::UInt));
